@@ -14,8 +14,9 @@ type C19Case struct {
 	W     *WideQ `json:"w"`
 	Plant int    `json:"plant"` // index of the fault marker that carries the fault
 	Kind  string `json:"kind"`  // fn (vf_fail returns an error at invocation k, every k) | type (type error planted at the position) | raise | selector
-	// selector kind: a selector the engine rejects (malformed range, index outside the array, index on a
-	// scalar, unknown pipe type) planted at the position; {ITEMS} / {K} stand for the array / scalar column
+	// selector kind: a selector that cannot be parsed (malformed range), planted at the position; {ITEMS} / {K}
+	// stand for the array / scalar column, {N} for a per-execution nonce. Selectors that fail only at run time
+	// are not used: whether they fail depends on the rows of the position they are planted in
 	BadSel string `json:"bad_selector,omitempty"`
 	// raise kind
 	RaiseSQL  string `json:"raise_sql,omitempty"`  // query containing RAISE / RAISE_WHEN
@@ -28,7 +29,7 @@ func genC19(t *rapid.T) any {
 	kind := rapid.SampledFrom([]string{"fn", "fn", "fn", "fn", "type", "raise", "selector"}).Draw(t, "kind")
 	c := &C19Case{Kind: kind}
 	if kind == "selector" {
-		c.BadSel = rapid.SampledFrom([]string{"nokey[(0:1:2)]", "nokey[(1:x)]", "nokey::[(1:x)]", "{ITEMS}[99]", "{K}[0]", "{ITEMS}[(0:99)]", "{ITEMS}.{p|date}", "{ITEMS}[each:0]"}).Draw(t, "badselector")
+		c.BadSel = rapid.SampledFrom([]string{"nokey[(0:1:{N})]", "nokey[(1:x{N})]", "nokey::[(1:x{N})]", "{ITEMS}[(0:1:{N})]", "{K}[(y{N}:2)]", "{ITEMS}::[(0:1:{N})]"}).Draw(t, "badselector")
 	}
 	if kind == "raise" {
 		doc, sc := genC07Doc(t)
@@ -133,7 +134,9 @@ func checkC19(c *C19Case) Result {
 		// a selector that fails when evaluated on its own must fail at every position where it is
 		// evaluated - the first time and every time after (the parse cache must not turn the second
 		// use into a success)
-		sel := c.BadSel
+		// {N} makes the selector text new to the process-wide parse cache, so that the stand-alone
+		// probe below is its first use and the planted executions are later uses
+		sel := strings.ReplaceAll(c.BadSel, "{N}", fmt.Sprint(2+injEpoch.Add(1)))
 		if rows, _ := w.Doc["t"].([]any); len(rows) > 0 {
 			if row, ok := rows[0].(map[string]any); ok {
 				for k, v := range row {
